@@ -24,7 +24,7 @@ type codecType struct {
 	// decode2 decodes r1 and then r2 into the SAME receiver and returns what the receiver holds
 	// after the second Decode (a receiver that already holds a value must end up holding exactly
 	// the second one)
-	decode2 func(r1, r2 io.Reader) (any, error)
+	decode2 func(r1, r2 io.Reader, mid func(any)) (any, error)
 	equal   func(a, b any) string // "" when bit-identical, else what differs
 	use     func(v any, pts []s2.Point, cells []s2.Cell) Ans
 }
@@ -175,9 +175,11 @@ var codecs = []*codecType{
 		draw:   func(g *gen.G) any { return g.Point() },
 		encode: func(v any, w io.Writer) error { return v.(s2.Point).Encode(w) },
 		decode: func(r io.Reader) (any, error) { var p s2.Point; err := p.Decode(r); return p, err },
-		decode2: func(r1, r2 io.Reader) (any, error) {
+		decode2: func(r1, r2 io.Reader, mid func(any)) (any, error) {
 			var p s2.Point
-			_ = p.Decode(r1)
+			if p.Decode(r1) == nil && mid != nil {
+				mid(p)
+			}
 			err := p.Decode(r2)
 			return p, err
 		},
@@ -214,9 +216,11 @@ var codecs = []*codecType{
 		},
 		encode: func(v any, w io.Writer) error { return v.(s2.Cap).Encode(w) },
 		decode: func(r io.Reader) (any, error) { var c s2.Cap; err := c.Decode(r); return c, err },
-		decode2: func(r1, r2 io.Reader) (any, error) {
+		decode2: func(r1, r2 io.Reader, mid func(any)) (any, error) {
 			var c s2.Cap
-			_ = c.Decode(r1)
+			if c.Decode(r1) == nil && mid != nil {
+				mid(c)
+			}
 			err := c.Decode(r2)
 			return c, err
 		},
@@ -262,9 +266,11 @@ var codecs = []*codecType{
 		},
 		encode: func(v any, w io.Writer) error { return v.(s2.Rect).Encode(w) },
 		decode: func(r io.Reader) (any, error) { var x s2.Rect; err := x.Decode(r); return x, err },
-		decode2: func(r1, r2 io.Reader) (any, error) {
+		decode2: func(r1, r2 io.Reader, mid func(any)) (any, error) {
 			var x s2.Rect
-			_ = x.Decode(r1)
+			if x.Decode(r1) == nil && mid != nil {
+				mid(x)
+			}
 			err := x.Decode(r2)
 			return x, err
 		},
@@ -297,9 +303,11 @@ var codecs = []*codecType{
 		draw:   func(g *gen.G) any { return g.Cell().ID() },
 		encode: func(v any, w io.Writer) error { return v.(s2.CellID).Encode(w) },
 		decode: func(r io.Reader) (any, error) { var x s2.CellID; err := x.Decode(r); return x, err },
-		decode2: func(r1, r2 io.Reader) (any, error) {
+		decode2: func(r1, r2 io.Reader, mid func(any)) (any, error) {
 			var x s2.CellID
-			_ = x.Decode(r1)
+			if x.Decode(r1) == nil && mid != nil {
+				mid(x)
+			}
 			err := x.Decode(r2)
 			return x, err
 		},
@@ -324,9 +332,11 @@ var codecs = []*codecType{
 		draw:   func(g *gen.G) any { return g.Cell() },
 		encode: func(v any, w io.Writer) error { return v.(s2.Cell).Encode(w) },
 		decode: func(r io.Reader) (any, error) { var x s2.Cell; err := x.Decode(r); return x, err },
-		decode2: func(r1, r2 io.Reader) (any, error) {
+		decode2: func(r1, r2 io.Reader, mid func(any)) (any, error) {
 			var x s2.Cell
-			_ = x.Decode(r1)
+			if x.Decode(r1) == nil && mid != nil {
+				mid(x)
+			}
 			err := x.Decode(r2)
 			return x, err
 		},
@@ -372,9 +382,11 @@ var codecs = []*codecType{
 		},
 		encode: func(v any, w io.Writer) error { cu := v.(s2.CellUnion); return cu.Encode(w) },
 		decode: func(r io.Reader) (any, error) { var x s2.CellUnion; err := x.Decode(r); return x, err },
-		decode2: func(r1, r2 io.Reader) (any, error) {
+		decode2: func(r1, r2 io.Reader, mid func(any)) (any, error) {
 			var x s2.CellUnion
-			_ = x.Decode(r1)
+			if x.Decode(r1) == nil && mid != nil {
+				mid(x)
+			}
 			err := x.Decode(r2)
 			return x, err
 		},
@@ -420,9 +432,11 @@ var codecs = []*codecType{
 		},
 		encode: func(v any, w io.Writer) error { return v.(s2.Polyline).Encode(w) },
 		decode: func(r io.Reader) (any, error) { var x s2.Polyline; err := x.Decode(r); return x, err },
-		decode2: func(r1, r2 io.Reader) (any, error) {
+		decode2: func(r1, r2 io.Reader, mid func(any)) (any, error) {
 			var x s2.Polyline
-			_ = x.Decode(r1)
+			if x.Decode(r1) == nil && mid != nil {
+				mid(x)
+			}
 			err := x.Decode(r2)
 			return x, err
 		},
@@ -456,9 +470,11 @@ var codecs = []*codecType{
 		},
 		encode: func(v any, w io.Writer) error { return v.(*s2.Loop).Encode(w) },
 		decode: func(r io.Reader) (any, error) { x := new(s2.Loop); err := x.Decode(r); return x, err },
-		decode2: func(r1, r2 io.Reader) (any, error) {
+		decode2: func(r1, r2 io.Reader, mid func(any)) (any, error) {
 			x := new(s2.Loop)
-			_ = x.Decode(r1)
+			if x.Decode(r1) == nil && mid != nil {
+				mid(x)
+			}
 			err := x.Decode(r2)
 			return x, err
 		},
@@ -479,9 +495,11 @@ var codecs = []*codecType{
 		},
 		encode: func(v any, w io.Writer) error { return v.(*s2.Polygon).Encode(w) },
 		decode: func(r io.Reader) (any, error) { x := new(s2.Polygon); err := x.Decode(r); return x, err },
-		decode2: func(r1, r2 io.Reader) (any, error) {
+		decode2: func(r1, r2 io.Reader, mid func(any)) (any, error) {
 			x := new(s2.Polygon)
-			_ = x.Decode(r1)
+			if x.Decode(r1) == nil && mid != nil {
+				mid(x)
+			}
 			err := x.Decode(r2)
 			return x, err
 		},
